@@ -328,7 +328,10 @@ theorem rebind_sound {E : List (LSeq α)} {st : St α} {sp : SPool α} (R : PRel
 /-- (for `L = true`) a `filter` is only applied to a sequence it `Hits`: finite, or with an item
     of the period that passes -/
 def OpLive (L : Bool) (sp : SPool α) : Op α → Prop
-  | .filter i p => L = true → ∀ sp' k s, specTarget sp i = .ok (sp', k, s) → Hits p s
+  | .filter i p => L = true →
+      match specTarget sp i with
+      | .ok (_, _, s) => Hits p s
+      | .error _ => True
   | _ => True
 
 /-- whenever the step of the model returns, the specification makes the same step -/
@@ -481,7 +484,7 @@ theorem prefines_map (R : PRel L E st sp) (i : Nat) (g : α → α) : PRefines L
 theorem prefines_filter (R : PRel L E st sp) (i : Nat) (p : α → Bool) (hl : OpLive L sp (.filter i p)) :
     PRefines L E st sp (.filter i p) :=
   prefines_wrap R i (.filter p) (LSeq.filter p) (fun q => L = true → Hits p q)
-    (fun sp' k q hq hL => hl hL sp' k q hq)
+    (fun sp' k q hq hL => by have := hl hL; rw [hq] at this; exact this)
     (fun _ _ _ o e c => ⟨o, fun hL => Hits.eqv e (c hL)⟩) (fun _ _ e => Eqv.filter p e)
     (fun f => by simp only [step]; cases target st i <;> rfl)
     (by simp only [specStep]; cases specTarget sp i <;> rfl)
